@@ -170,4 +170,25 @@ CHECKS = {
         "required_classes": {"env-present-cli-absent": 0.05, "env-and-cli-present": 0.05, "kind:argument": 0.1, "kind:option": 0.1},
         "assumptions": COMMON_ASSUMPTIONS,
     },
+    "C16": {
+        "tests": [{"name": "TestC16", "quick": 64000, "thorough": 1600000}],
+        "rule": "cases = declaration sets (0-4 options with 1-3 names each, possibly env-backed; 0-3 arguments) declared in a random interleaved call order, and C01-style argvs (sentences, token mutations, soup); "
+                "oracle: differential between two real apps built from the same declarations - Spec empty versus the explicit string '[OPTIONS] ARG1 ARG2 ...' assembled from the statement "
+                "('[OPTIONS]' omitted without options, arguments in declaration order): identical acceptance, identical bound values, identical whitespace-normalised usage line which must equal "
+                "'Usage: app <that spec>'; plus the reference-model verdict for the explicit spec. non-trivial = >= 1 option, >= 2 arguments and a non-empty argv; distinct by (declarations, order, argv)",
+        "required_classes": {"verdict:accept": 0.2, "verdict:reject": 0.1, "decls:no-option": 0.03, "decls:option-declared-after-argument": 0.1},
+        "assumptions": COMMON_ASSUMPTIONS,
+    },
+    "C17": {
+        "tests": [{"name": "TestC17", "quick": 48000, "thorough": 1200000}],
+        "rule": "cases = a command at depth 0-2 with 0-4 arguments and 0-5 options of all seven built-in types declared in interleaved order (option names: only short, only long, several of each), "
+                "multi-line / blank-padded / empty descriptions, environment lists of 0-3 names whose variables hold OTHER valid values at declaration time, defaults of every type (empty and non-empty), HideValue, "
+                "0-4 subcommands with 1-3 aliases (a third Hidden), LongDesc set or not, implicit or explicit spec; help obtained through --help (long) or through a rejected invocation (short); "
+                "every name/description/default is drawn from a distinctive vocabulary. oracle: usage line = path + spec words + COMMAND marker iff it has subcommands; description (long one iff long help and set); "
+                "then ordered anchors (argument names, first short + first long option name, alias lists of visible subcommands), each row holding its description words, every $ENV name and the declared default iff "
+                "non-empty and not hidden (numeric zero unasserted); rows of hidden/empty defaults show no default; every vocabulary-shaped word of the output is accounted for (nothing hidden, nothing undeclared, no environment value). "
+                "non-trivial = case with a hidden command or hidden value, an env list and an option lacking a short or a long name; distinct by full case",
+        "required_classes": {"has:hidden-command": 0.1, "has:hidden-value": 0.1, "has:env-list": 0.2, "route:short-help-after-rejection": 0.1, "depth>=1": 0.2},
+        "assumptions": COMMON_ASSUMPTIONS + ["boilerplate wording and column layout are not compared"],
+    },
 }
